@@ -67,11 +67,36 @@ def load_known(prop):
     return known, fixed
 
 
+_BIG_FRAME = []
+
+
+def big_frame(f, *a):
+    """call f(*a) from a function whose frame has ~135000 local slots.
+
+    Pure performance device, no effect on what is computed: CPython 3.11+
+    keeps interpreter frames on a per-thread 'data stack' made of 16 KB chunks
+    that are mmap()ed when a call crosses the end of a chunk and munmap()ed
+    on return.  Arpeggio's deeply recursive parsers cross a chunk boundary
+    hundreds of times per parse, and in this VM the mmap/munmap/page-fault
+    pairs dominate the run time as soon as several worker processes run
+    (measured: 71 s -> 6 s for 1000 RREL round trips on 4 workers).  A frame
+    of 1 MB forces one 2 MB chunk with ~0.9 MB free, in which all the
+    callees' frames then live."""
+    if not _BIG_FRAME:
+        names = ' = '.join('_%d' % i for i in range(135000))
+        src = ('def _big(f, a, _never=False):\n    if _never:\n        %s = None\n'
+               '    return f(*a)\n' % names)
+        ns = {}
+        exec(compile(src, '<big_frame>', 'exec'), ns)
+        _BIG_FRAME.append(ns['_big'])
+    return _BIG_FRAME[0](f, a)
+
+
 def _worker(args):
     fn, item = args
     t0 = time.time()
     try:
-        return ('ok', fn(item), time.time() - t0)
+        return ('ok', big_frame(fn, item), time.time() - t0)
     except BaseException as e:  # noqa
         return ('err', '%s: %s\n%s' % (type(e).__name__, e, traceback.format_exc()),
                 time.time() - t0)
@@ -82,6 +107,7 @@ def pmap(fn, items, procs=None, chunksize=1):
     function. Returns list of ('ok', result, secs) | ('err', text, secs)."""
     items = list(items)
     procs = procs or ncpu()
+    big_frame(int)  # compile once, before fork
     if procs <= 1 or len(items) <= 1:
         return [_worker((fn, it)) for it in items]
     ctx = multiprocessing.get_context('fork')
